@@ -841,3 +841,6 @@ func (f *Facts) HasPlain(s string) bool {
 
 // HasText reports whether an atom with exactly this text is present.
 func (f *Facts) HasText(s string) bool { _, ok := f.m[s]; return ok }
+
+// ParseIntStr parses a canonical integer constant.
+func ParseIntStr(s string) (int64, bool) { return parseInt(s) }
